@@ -1235,8 +1235,9 @@ def population_run(seed, run, rng):
             # brackets are not compared: under NOT (...) the library parenthesises nested compound criteria once more
             # (ctx.subcriterion reaches the sub-query), which is well-formed and means the same
             inner_n, outer_n = _noparens(inner), _noparens(outer)
-            if inner_n[:min(24, len(inner_n))] not in outer_n:
-                continue  # the argument is not part of the parent's text (dropped, or used as something else)
+            if "(" + inner[:min(24, len(inner))] not in outer:
+                continue  # the argument is not part of the parent's text as a bracketed sub-query (dropped, or the
+                #           parent merely begins like it because it was derived from the same receiver)
             res["stats"]["subquery_embeddings_compared"] += 1
             if cls == "SQLLiteQuery" and j in getattr(g_parents, "idx", ()) and sqlite_parse_error(inner) is None:
                 # SQLite accepts the SELECT on its own, and the parent around it is a plain template: it must accept both
@@ -1290,8 +1291,7 @@ def replay_population_context(payload):
     cls = type(P).QUERY_CLS.__name__
     outer = P.get_sql(L.CTX[cls])
     inner = S.get_sql(L.CTX[cls].copy(with_alias=False, subquery=False))
-    inner, outer = _noparens(inner), _noparens(outer)
-    if inner[:min(24, len(inner))] in outer and inner not in outer:
+    if "(" + inner[:min(24, len(inner))] in outer and _noparens(inner) not in _noparens(outer):
         return True, payload["signature"]
     return False, "not reproduced"
 
